@@ -79,15 +79,30 @@ def r1(ctx, R):
             R.bad(fi, fi.node, "%s does not create references in %s mode" % (spec, want), stmt="refmode=")
     # ReferenceImpl.__init__
     ri = ctx.func("ReferenceImpl.__init__")
-    ws = {norm(st.value): st for st, t in q.attr_writes(ri, attr="is_relative", recv="self")}
+    wsl = [st for st, t in q.attr_writes(ri, attr="is_relative", recv="self")]
+
+    def _val(expr, mode):
+        """value of an is_relative expression for a given mode: True/False/None(unknown)"""
+        if isinstance(expr, ast.Constant) and isinstance(expr.value, bool):
+            return expr.value
+        if isinstance(expr, ast.Compare) and len(expr.ops) == 1 and norm(expr.left).split(".")[-1] == "refmode" \
+                and isinstance(expr.comparators[0], ast.Constant):
+            eq = expr.comparators[0].value == mode
+            return eq if isinstance(expr.ops[0], ast.Eq) else (not eq if isinstance(expr.ops[0], ast.NotEq) else None)
+        if isinstance(expr, ast.UnaryOp) and isinstance(expr.op, ast.Not):
+            v = _val(expr.operand, mode)
+            return None if v is None else not v
+        if isinstance(expr, ast.IfExp):
+            t = _val(expr.test, mode)
+            return None if t is None else _val(expr.body if t else expr.orelse, mode)
+        return None
     for mode in sorted(DOMAIN):
         R.inst("ReferenceImpl.__init__[%s]: is_relative = %s" % (mode, mode != "absolute"))
-        want = "False" if mode == "absolute" else "True"
-        other = "True" if want == "False" else "False"
-        if want not in ws or not _reached(ri, [ws[want]], _mode_outcome(mode)) or \
-                (other in ws and _reached(ri, [ws[other]], _mode_outcome(mode))):
-            R.bad(ri, ri.node, "a reference created in %s mode gets is_relative != %s" % (mode, want),
-                  stmt="is_relative[%s]" % mode)
+        reached = q.run_abstract(ri, _mode_outcome(mode))
+        vals = {_val(st.value, mode) for st in wsl if any(i in reached for i in q.nodes_for(ri, st))}
+        if vals != {mode != "absolute"}:
+            R.bad(ri, ri.node, "a reference created in %s mode gets is_relative in %s, required %s" % (
+                mode, sorted(map(str, vals)), mode != "absolute"), stmt="is_relative[%s]" % mode)
     # ReferenceImpl.on_inherit
     oi = ctx.func("ReferenceImpl.on_inherit")
     gri = q.calls(oi, name="get_relative_interface")
